@@ -168,10 +168,10 @@ def run_unit(unit):
                 for name, nr in dists:
                     d = dist_points(name, nr)
                     Px, Py = np.asarray(d.x, float).copy(), np.asarray(d.y, float).copy()
-                    wf = Wavefront(o, fields=[(0.0, 0.0), (0.0, 0.7), (0.0, 1.0)], wavelengths=[w], num_rays=nr, distribution=name)
+                    wf = Wavefront(o, fields=[(0.0, 0.0), (0.0, 0.7), (0.0, 1.0), (0.0, -1.0), (0.0, -0.4)], wavelengths=[w], num_rays=nr, distribution=name)
                     part.transitions += 1
                     part.evals += 1
-                    for fi, Hy in enumerate((0.0, 0.7, 1.0)):
+                    for fi, Hy in enumerate((0.0, 0.7, 1.0, -1.0, -0.4)):       # fields on both sides of the axis
                         ref = geometric_opd(o, rows_w, Hy, Px, Py, w, xpl)
                         det = dict(det0, wavelength=w, distribution=name, Hy=Hy)
                         cmp_opd(part, 'opd-is-path-difference-to-reference-sphere', 'Wavefront', cond, det, wf.data[fi][0][0], ref)
@@ -205,6 +205,25 @@ def run_unit(unit):
                         ref = geometric_opd(o, rows_w, Hy, Px, Py, w, xpl)
                         cmp_opd(part, 'opd-all-fields-all-wavelengths', 'Wavefront', cond,
                                 dict(det0, wavelength=w, Hy=Hy, call='fields=all,wavelengths=all'), wf.data[fi][wi][0], ref)
+            # ---- the OPD map object after view(): the stored samples and rms() are still the path differences
+            if off == 0.0 and math.isfinite(xpl) and abs(xpl) < 1e6:
+                import matplotlib.pyplot as plt
+                om = OPD(o, (0.0, 1.0), 0.5876, 3)
+                d0 = np.asarray(om.data[0][0][0], float).copy()
+                r0 = float(om.rms())
+                orig_show = plt.show
+                plt.show = lambda *a, **k: None
+                try:
+                    om.view(num_points=16)
+                    om.view(projection='3d', num_points=16)
+                finally:
+                    plt.show = orig_show
+                    plt.close('all')
+                part.transitions += 2
+                part.evals += 1
+                d1 = np.asarray(om.data[0][0][0], float)
+                if not np.array_equal(d0, d1, equal_nan=True) or not (float(om.rms()) == r0 or (math.isnan(r0) and math.isnan(float(om.rms())))):
+                    part.violation(PID, 'opd-map-samples-unchanged-by-view', 'OPD.view', cond, dict(det0, wavelength=0.5876), observed=d1[:4], expected=d0[:4])
             # ---- history: replace the first glass through set_index on this lens object, analyse again at the same wavelength
             gi = next((i for i, s_ in enumerate(sp['surfs']) if s_['mat'] not in ('air', 'mirror')), None)
             if gi is not None and off == 0.0 and math.isfinite(xpl):
